@@ -310,6 +310,19 @@ def check(case, ctx):
         raise Violation("validate-raises", f"validate({_r(S)}, {g!r}) raised {e!r}")
     if res.has_errors():
         raise Violation("fake-invalid", f"fake({_r(S)}) = {g!r} -> {res.get_errors()!r}")
+    # the other public ways of asking whether a value conforms: the == / != operators, validate_or_fail, a validator of
+    # one's own
+    try:
+        from d42 import validate_or_fail
+        from d42.validation import Validator
+        answers = {"S == value": (S == g) is True, "not (S != value)": (S != g) is False,
+                   "validate_or_fail": validate_or_fail(S, g) is True,
+                   "own Validator": not S.__accept__(Validator(), value=g).has_errors()}
+    except Exception as e:  # noqa
+        raise Violation("fake-invalid", f"fake({_r(S)}) = {g!r}: validate accepts it, another entry point raised {e!r}")
+    bad = [k for k, ok in answers.items() if not ok]
+    if bad:
+        raise Violation("fake-invalid", f"fake({_r(S)}) = {g!r}: validate accepts it, but {bad!r} say otherwise")
 
     if r is not None and _must_draw(spec) and r.draws == 0:
         raise HarnessError("vacuity guard: a spec that must draw consumed no scripted RNG outcome "
